@@ -127,6 +127,7 @@ package proxyproto
 //@ property C08 C12
 //@ requires c != nil && c.Conn != nil && ctx != nil
 //@ modifies **
+//@ ensures lockDepth() == old(lockDepth())
 //@ ensures result == c.headerErr
 //@ ensures c.Conn == old(c.Conn)
 
@@ -139,12 +140,13 @@ package proxyproto
 //@ property C08 C12
 //@ requires c != nil && c.Conn != nil
 //@ modifies **
+//@ ensures lockDepth() == old(lockDepth())
 //@ ensures result == c.headerErr
 //@ ensures c.Conn == old(c.Conn)
 
 //@ func (*Conn).RemoteAddr
 //@ property C08 C12
-//@ requires c != nil && c.Conn != nil
+//@ requires c != nil && c.Conn != nil && lockDepth() == 0
 //@ modifies **
 //@ ensures result != nil
 //@ ensures c.headerErr == nil && !c.header.IsLocal && c.header.Source != nil ==> result == c.header.Source
@@ -152,7 +154,7 @@ package proxyproto
 
 //@ func (*Conn).LocalAddr
 //@ property C08 C12
-//@ requires c != nil && c.Conn != nil
+//@ requires c != nil && c.Conn != nil && lockDepth() == 0
 //@ modifies **
 //@ ensures result != nil
 //@ ensures c.headerErr == nil && !c.header.IsLocal && c.header.Destination != nil ==> result == c.header.Destination
